@@ -5,7 +5,7 @@ import vlib
 
 PROPS = ['Rangers.Props.C20', 'Rangers.Props.C20B', 'Rangers.Props.C20Facts']
 DRIVERS = ['C20']
-KNOWN_KEYS = ('stale-iterator-in-block', 'id-hash-collision', 'refund-lost-second-account', 'unstake-opcode-escrows-untruncated-amount', 'reactivation-needs-more-than-minimum', 'pkcache-keeps-discarded-block')
+KNOWN_KEYS = ('stale-iterator-in-block', 'id-hash-collision', 'refund-lost-second-account', 'unstake-opcode-escrows-untruncated-amount', 'reactivation-needs-more-than-minimum', 'pkcache-keeps-discarded-block', 'reader-panics-on-long-id')
 META = dict(
     level='proof',
     technique='Lean 4 theorems (invariant + per-transaction refinement lemmas, all inputs, every key-hash/JSON codec) about an '
@@ -50,7 +50,51 @@ def correspond(ctx):
         # both sides rejecting a generated line is a broken tie (generator/driver mismatch), not agreement
         c['ok'] = False
         c.setdefault('errors', []).append('%d generated op lines were answered bad-op' % c['bad_op'])
-    return [c]
+    return [c, concurrent_readers(ctx)]
+
+
+def concurrent_readers(ctx):
+    """Class 4 (evidence, not proof): N goroutines read a committed state concurrently; all must see what the
+    sequential reader sees. Plain build in quick, -race build in thorough."""
+    res = dict(name='concurrent-readers (evidence only)', ok=False, ops=0, mismatches=0, errors=[], violations=[], samples=[])
+    race = ctx.thorough()
+    binp, log = vlib.go_build(ctx, vlib.HARNESS, './cmd/c20', 'c20race' if race else 'c20conc', race=race)
+    if not binp:
+        res['errors'].append('build failed: ' + log[-1500:])
+        return res
+    cwd = ctx.scratch('c20conc')
+    ops = os.path.join(ctx.work, 'c20conc.ops')
+    obs = os.path.join(ctx.work, 'c20conc.obs')
+    env = dict(VERIF_SEED=str(ctx.seed + 104729), VERIF_TIER=ctx.tier, GOMEMLIMIT='8GiB')
+    rc, so, se = vlib.run([binp, 'mode=conc', 'ops=' + ops, 'obs=' + obs, 'tier=' + ctx.tier], cwd=cwd, env=env, timeout=1500)
+    import shutil
+    shutil.rmtree(cwd, ignore_errors=True)
+    races = se.count('WARNING: DATA RACE')
+    for line in so.split('\n'):
+        if line.startswith('CONC '):
+            j = json.loads(line[5:])
+            res['ops'] = j['checks']
+            res['mismatches'] = j['differ']
+            res['stats'] = j
+    res['stats'] = dict(res.get('stats') or {}, race_build=race, data_race_reports=races)
+    if rc != 0 and not races:
+        res['errors'].append('harness exited %d: %s' % (rc, (se or so)[-600:]))
+    first = ''
+    try:
+        for o, a in zip(open(ops), open(obs)):
+            if not a.startswith('same'):
+                first = o.strip() + ' => ' + a.strip()[:600]
+                break
+    except OSError:
+        pass
+    if res['mismatches'] or first:
+        res['violations'].append(dict(key='concurrent-readers-disagree', desc=first or 'a concurrent reader saw a different registry',
+                                      replay=dict(how='harness/bin/c20 mode=conc with VERIF_SEED=%d' % (ctx.seed + 104729))))
+    if races:
+        res['violations'].append(dict(key='data-race-in-registry-readers', desc=se[se.find('WARNING: DATA RACE'):][:1500],
+                                      replay=dict(how='go build -race; harness/bin/c20race mode=conc')))
+    res['ok'] = (res['ops'] > 0 and not res['mismatches'] and not races and not res['errors'])
+    return res
 
 
 def search(ctx, hints):
